@@ -24,14 +24,17 @@ ENV = {"VERIF_YANG_DIR": os.path.join(paths.REPO, "tests", "modules", "yang")}  
 ASSUMPTIONS = [
     "data trees are valid instances over schema family S1 (DESIGN §2.4), built through the public API and validated; one module",
     "model fragment for apply: no two equal instances inside one duplicate-instance sibling group (key-less list, state leaf-list), "
-    "no operation below a matched key-less list instance; outside it only the laws are evaluated (findings F51, F53)",
-    "the default flag of non-presence containers is not compared after apply (lyd_compare_siblings ignores it; finding F54)",
+    "no operation below a matched key-less list instance (also excluded from the diff comparison); without LYD_DIFF_DEFAULTS no create "
+    "next to default instances of the same user-ordered leaf-list; outside it only the laws are evaluated (findings F121, F123, F127)",
+    "KNOWN MODEL GAP: the order of the diff siblings of one system-ordered list when >= 2 parent copies and a delete/create meet below "
+    "an existing diff parent (libyang inserts the parent copies by its sorting tree, the model appends); such diffs are not compared",
+    "the default flag of non-presence containers is not compared after apply (lyd_compare_siblings ignores it; finding F124)",
     "equality after apply is lyd_compare_siblings(FULL_RECURSION | DEFAULTS), the property's observation point",
 ]
 TRUSTED = ["tools/vlib/treegen.py (schema/instance generator, YANG renderer)", "harness/treeproto.h (tree loader and canonical dump)"]
 
 LAW_OK = {"diff": "Success", "selfA": "empty", "selfB": "empty", "pureA": "1", "pureB": "1", "apply": "Success", "pureD": "1",
-          "cmp": "1", "xml": "ok", "json": "ok", "lyb": "ok", "reval": "ok"}
+          "cmp": "1", "xml": "ok", "json": "ok", "lyb": "ok", "reval": "ok", "npstale": "0"}
 LAW_TEXT = {
     "diff": "computing the diff fails",
     "selfA": "the diff of a tree with itself is not empty", "selfB": "the diff of a tree with itself is not empty",
@@ -40,6 +43,7 @@ LAW_TEXT = {
     "pureD": "applying the diff modified the diff",
     "cmp": "apply(A, diff(A,B)) is not equal to B (lyd_compare_siblings)",
     "reval": "re-validation of apply(A, diff(A,B)) fails",
+    "npstale": "apply(A, diff(A,B)) has a non-presence container still flagged default above an explicit node (dropped by LYD_PRINT_WD_TRIM)",
     "xml": "diff printed as XML, parsed back after A and B were freed, does not take A to B",
     "json": "diff printed as JSON, parsed back after A and B were freed, does not take A to B",
     "lyb": "diff printed as LYB, parsed back after A and B were freed, does not take A to B",
@@ -115,20 +119,22 @@ def features(s, A, B, D, o):
         if sn.kind == "leaflist" and sn.is_userord() and not sn.dup_inst() and own == b"replace":
             od = meta(n, "orig-default")
             if od is not None and (od == b"true") != bool(n.flags & tg.F_DFLT):
-                f.add("uo-move-with-dflt-change")                                                    # F50
+                f.add("uo-move-with-dflt-change")                                                    # F120
+        if sn.is_term() and own == b"none" and meta(n, "orig-default") == b"true" and not (n.flags & tg.F_DFLT):
+            f.add("dflt-cleared-by-none")                                                            # F124
         if sn.kind == "list" and not sn.keys and op == "none":
-            f.add("op-below-keyless-instance")                                                       # F51
+            f.add("op-below-keyless-instance")                                                       # F121
         if sn.dup_inst() and own in (b"replace", b"delete") and sn.sid in dup_sids:
-            f.add("dupinst-duplicate-touched")                                                       # F53
+            f.add("dupinst-duplicate-touched")                                                       # F123
         if sn.kind == "list" and own == b"replace" and len(n.kids) > len(sn.keys):
-            f.add("move-with-content")                                                               # F56
+            f.add("move-with-content")                                                               # F126
         if not o and sn.sid in dflt_uo_sids and op == "create":
             # without LYD_DIFF_DEFAULTS the default instances stay next to the created ones until re-validation; which of two
             # equal instances an anchor lookup returns then depends on the children hash table
             f.add("create-next-to-default-instances")
     for g in groups(B, lambda sn: sn.kind == "leaflist" and sn.is_userord() and not sn.dup_inst()):
         if any(x.val == b"" for x in g[:-1]):
-            f.add("uo-empty-value-anchor")                                                           # F52
+            f.add("uo-empty-value-anchor")                                                           # F122
     if dup_sids:
         f.add("dupinst-duplicates")
     for g in groups(D, lambda sn: sn.kind == "leaflist" and not sn.is_userord()):
@@ -150,19 +156,22 @@ def classify(component, what, case):
     if law == "json" and "json-leaflist-meta-order" in feat and case.get("route_only"):
         return "F34"
     if law in ("apply", "xml", "json", "lyb") and verdict in ("Eint", "applyerr") and "move-with-content" in feat:
-        return "F56"
+        return "F126"
     if law in ("cmp", "xml", "json", "lyb") and verdict in ("0", "differs") and "uo-move-with-dflt-change" in feat:
-        return "F50"
-    if law in ("apply", "xml", "json", "lyb") and verdict in ("Einval", "applyerr") and "op-below-keyless-instance" in feat:
-        return "F51"
+        return "F120"
+    if law in ("apply", "cmp", "xml", "json", "lyb") and "op-below-keyless-instance" in feat:
+        # the partial parent copy in the diff matches no instance (LY_EINVAL) or, compared by full recursion, another one
+        return "F121"
     if law in ("cmp", "xml", "json", "lyb") and verdict in ("0", "differs") and "uo-empty-value-anchor" in feat:
-        return "F52"
+        return "F122"
     if law in ("apply", "cmp", "xml", "json", "lyb") and "dupinst-duplicate-touched" in feat:
-        return "F53"
+        return "F123"
+    if law == "npstale" and "dflt-cleared-by-none" in feat:
+        return "F124"
     if law in ("ptr", "cmp", "apply") and "diff-pointer-not-first" in feat:
-        return "F58"
+        return "F128"
     if law in ("cmp", "xml", "json", "lyb") and verdict in ("0", "differs") and "create-next-to-default-instances" in feat and not case.get("opts"):
-        return "F57"
+        return "F127"
     return None
 
 
@@ -225,21 +234,22 @@ def userord_cases(cx, kind, nkeys):
     top_ul = s.top[1]
     seqs = tg.all_nodup_seqs(nkeys)
 
-    def inst(sn, k):
+    def inst(sn, k, changed=False):
         if sn.kind == "leaflist":
             return tg.DN(sn, str(k).encode())
         kids = []
         if sn.keys:
             kids.append(tg.DN(sn.kids[0], str(k).encode()))
-            kids.append(tg.DN(sn.kids[1], b"v%d" % k))
+            kids.append(tg.DN(sn.kids[1], (b"w%d" if changed else b"v%d") % k))
         else:
             kids.append(tg.DN(sn.kids[0], str(k).encode()))
         return tg.DN(sn, None, kids)
 
-    def tree(seq, nested):
+    def tree(seq, nested, vmask=0, az=(b"x", b"y")):
+        """vmask: bit k set = the non-key leaf of instance k has the other value; az: values of the leaves around the list"""
         if nested:
-            return [tg.DN(cont, None, [tg.DN(a, b"x")] + [inst(ul, k) for k in seq] + [tg.DN(z, b"y")])]
-        return [inst(top_ul, k) for k in seq]
+            return [tg.DN(cont, None, [tg.DN(a, az[0])] + [inst(ul, k, vmask >> k & 1) for k in seq] + [tg.DN(z, az[1])])]
+        return [inst(top_ul, k, vmask >> k & 1) for k in seq]
     return s, seqs, tree
 
 
@@ -253,8 +263,8 @@ def run(cx):
             "option settings; exhaustive pairs of duplicate-free user-ordered sequences; non-trivial = distinct (schema, A, B, opts) "
             "whose diff is not empty or whose reply is a distinct error")
     rng = cx.sub_rng("schemas")
-    nsch = cx.n(34, 140)
-    per = cx.n(70, 700)
+    nsch = cx.n(34, 100)
+    per = cx.n(64, 300)
     schemas = [tg.gen_schema(rng, i, max_depth=rng.choice([2, 3, 3])) for i in range(nsch)]
     corpus_cases = load_corpus(cx)
     cases = []
@@ -278,11 +288,17 @@ def load_corpus(cx):
 
 
 def corpus_file(path):
-    """{"schema": {"gen": [seed, idx]} | {"userord": kind}, "pairs": [[A-dump, B-dump], ...]}  (dumps as text, explicit nodes)"""
+    """{"schema": {"gen": [seed, idx]} | {"userord": kind} | {"hand": function of treegen}, "pairs": [[A-dump, B-dump], ...]}
+    (dumps as text, explicit nodes only: libyang adds the implicit ones)"""
     import random
     j = json.load(open(path))
     sj = j["schema"]
-    s = tg.userord_schema(sj["userord"]) if "userord" in sj else tg.gen_schema(random.Random(sj["gen"][0]), sj["gen"][1], **sj.get("kw", {}))
+    if "userord" in sj:
+        s = tg.userord_schema(sj["userord"])
+    elif "hand" in sj:
+        s = getattr(tg, sj["hand"])()
+    else:
+        s = tg.gen_schema(random.Random(sj["gen"][0]), sj["gen"][1], **sj.get("kw", {}))
     return [Case(s, tg.parse_dump(s, a), tg.parse_dump(s, b), "corpus") for a, b in j["pairs"]]
 
 
@@ -311,9 +327,11 @@ def build_trees(cx, schemas, cases):
     return [c for c in cases if c.a is not None and c.b is not None]
 
 
-def process(cx, schemas, cases, tag, laws=True, apply3=True):
+def process(cx, schemas, cases, tag, laws=True, apply3=True, law_mod=1):
     cases = build_trees(cx, schemas, cases)
     rng = cx.sub_rng("proc" + tag)
+    # repaired findings: the model follows the repaired code (LyModel.Diff.Fixes)
+    fx = "fx=" + (",".join(sorted(f[1:] for f in ("F120", "F126", "F128") if cx.findings.get(f, {}).get("status") == "fixed")) or "-")
     # ---- 1. diff correspondence (also gives the features used for the fragment and for classification)
     head = [schema_line("S%d" % i, s) for i, s in enumerate(schemas)]
     lines, idx = [], {}
@@ -321,7 +339,7 @@ def process(cx, schemas, cases, tag, laws=True, apply3=True):
         d = tg.hx(c.s.dsl())
         for o in (0, 1):
             i = "d%s%d.%d" % (tag, k, o)
-            lines.append("%s %s diff %s %s %s %d" % (i, COMP, d, c.a, c.b, o))
+            lines.append("%s %s diff %s %s %s %d %s" % (i, COMP, d, c.a, c.b, o, fx))
             idx[i] = (c, o)
         if rng.random() < 0.25:
             i = "k%s%d" % (tag, k)
@@ -334,7 +352,38 @@ def process(cx, schemas, cases, tag, laws=True, apply3=True):
 
     def nontrivial(line, reply):
         return not (reply[0] == "ok" and len(reply) > 1 and reply[1] == "-")
-    ri, rm = differential(cx, head, lines, kind, nontrivial)
+    def below_keyless(line, reply):
+        """libyang's diff has an operation below a matched key-less list instance (every such operation gets its own copy of
+        the parents: the model does not follow that; it only arises from default-flag-only differences, finding F121)"""
+        c, o = idx[line.split()[0]]
+        if o is None or reply[0] != "ok":
+            return False
+        return any(n.sn.kind == "list" and not n.sn.keys and op == "none" for n, op in walk_diff(tg.untok(c.s, reply[1])))
+    def lyds_parent_copies(line, reply):
+        """KNOWN MODEL GAP (reported by the C13 builder): below an already existing diff parent, lyd_diff_add connects the parent
+        copies of a system-ordered list through lyd_insert_node(..., LYD_INSERT_NODE_DEFAULT), i.e. sorted by the lyds tree among
+        the diff siblings that are in that tree (earlier parent copies), while nodes that carry an operation are appended; the
+        model appends both.  Only the ORDER of the diff siblings of one list differs (apply does not depend on it).  Recognised
+        on libyang's diff: a nested sibling group of a system-ordered keyed list with >= 2 parent copies and a delete/create."""
+        c, o = idx[line.split()[0]]
+        if o is None or reply[0] != "ok":
+            return False
+        wd = dict((id(n), op) for n, op in walk_diff(tg.untok(c.s, reply[1])))
+
+        def rec(nodes, depth):
+            byg = {}
+            for n in nodes:
+                if depth and n.sn.kind == "list" and n.sn.keys and not n.sn.is_userord():
+                    byg.setdefault(n.sn.sid, []).append(n)
+            for g in byg.values():
+                copies = sum(1 for n in g if meta(n, "operation") in (None, b"none"))
+                ops = sum(1 for n in g if meta(n, "operation") in (b"delete", b"create"))
+                if copies >= 2 and ops >= 1:
+                    return True
+            return any(rec(n.kids, depth + 1) for n in nodes)
+        return rec(tg.untok(c.s, reply[1]), 0)
+    ri, rm = differential(cx, head, lines, kind, nontrivial,
+                          skip=lambda l, r: below_keyless(l, r) or lyds_parent_copies(l, r))
     for i, (c, o) in idx.items():
         r = ri.get(i, ["err", "NoReply"])
         if o is None:
@@ -353,9 +402,9 @@ def process(cx, schemas, cases, tag, laws=True, apply3=True):
             if o not in c.feat or not in_fragment(c.feat[o]):
                 cx.dist["out-of-fragment(apply)"] += 1
                 continue
-            lines.append("a%s%d.%d %s diffapply %s %s %s %d" % (tag, k, o, COMP, d, c.a, c.b, o))
+            lines.append("a%s%d.%d %s diffapply %s %s %s %d %s" % (tag, k, o, COMP, d, c.a, c.b, o, fx))
             if apply3 and c.c is not None and o == (k % 2) and not dupinst_has_duplicates(tg.untok(c.s, c.c)):
-                lines.append("m%s%d.%d %s apply3 %s %s %s %s %d" % (tag, k, o, COMP, d, c.a, c.b, c.c, o))
+                lines.append("m%s%d.%d %s apply3 %s %s %s %s %d %s" % (tag, k, o, COMP, d, c.a, c.b, c.c, o, fx))
     differential(cx, head, lines, kind, nontrivial)
     # ---- 3. the laws on the implementation
     if not laws:
@@ -363,6 +412,8 @@ def process(cx, schemas, cases, tag, laws=True, apply3=True):
     lines, idx = [], {}
     for k, c in enumerate(cases):
         d = tg.hx(c.s.dsl())
+        if k % law_mod:
+            continue
         for o in (0, 1):
             i = "l%s%d.%d" % (tag, k, o)
             lines.append("%s %s law %s %s %s %d" % (i, COMP, d, c.a, c.b, o))
@@ -372,8 +423,9 @@ def process(cx, schemas, cases, tag, laws=True, apply3=True):
         eval_law(cx, c, o, rep.get(i, ["err", "NoReply"]))
 
 
-def differential(cx, head, lines, kind, nontrivial):
-    """cx.differential with the schema registrations in front of the batch (not counted as cases)"""
+def differential(cx, head, lines, kind, nontrivial, skip=None):
+    """cx.differential with the schema registrations in front of the batch (not counted as cases); skip(line, impl_reply):
+    the case is outside the model's fragment, decided from what the implementation answered"""
     if not lines:
         return {}, {}
     ri = cx.run_impl(HARNESS, head + lines, component=COMP, env=ENV)
@@ -389,6 +441,9 @@ def differential(cx, head, lines, kind, nontrivial):
         if l in lines:
             cx.count(" ".join(l.split()[2:]), nontrivial(l, a), kind(l, a))
         if a != b and a[:2] not in (["err", "Crash"], ["err", "Timeout"]):
+            if skip is not None and l in lines and skip(l, a):
+                cx.dist["out-of-fragment(diff)"] += 1
+                continue
             cx.disagree(COMP, l, a, b)
     cx.sample(lines[cx.rng.randrange(len(lines))][:600])
     return ri, rm
@@ -411,9 +466,9 @@ def eval_law(cx, c, o, reply):
     cx.count(("law",) + key, bool(c.D.get(o)), "diff:law:" + ("all-hold" if all(v.get(k, LAW_OK[k]) == LAW_OK[k] for k in LAW_OK) else "some-fail"))
     cx.dist["law:exact=" + v.get("exact", "-")] += 1
     if v.get("ptr", "0") != "0":
-        c.feat[o] = sorted(set(c.feat.get(o, [])) | {"diff-pointer-not-first"})                      # F58
+        c.feat[o] = sorted(set(c.feat.get(o, [])) | {"diff-pointer-not-first"})                      # F128
         cx.fail(COMP, "lyd_diff_siblings returns a node that is not the first sibling of the diff", case_payload(c, o, "ptr", v["ptr"]))
-    for k in ("diff", "selfA", "selfB", "pureA", "pureB", "apply", "pureD", "reval", "cmp", "xml", "json", "lyb"):
+    for k in ("diff", "selfA", "selfB", "pureA", "pureB", "apply", "pureD", "reval", "cmp", "npstale", "xml", "json", "lyb"):
         if k in v and v[k] != LAW_OK[k]:
             if k in ("xml", "json", "lyb") and v.get("apply") == "Success" and v.get("cmp") == "0" and v[k] == "differs":
                 continue        # the same failure as the direct route, reported there
@@ -423,22 +478,54 @@ def eval_law(cx, c, o, reply):
 
 
 def exhaustive(cx):
-    plan = [("list", cx.n(4, 5)), ("leaflist", cx.n(4, 5)), ("keyless", cx.n(3, 4)), ("statell", cx.n(3, 4)), ("statelist", cx.n(3, 4))]
-    total = 0
-    for kind, nk in plan:
+    """all ordered pairs of duplicate-free user-ordered sequences over <= n keys, at the top level (complete) and, for a sample,
+    nested in a container between two leaves (the algorithm does not depend on the level)"""
+    thorough = cx.tier == "thorough"
+    #        kind         keys   share of the pairs taken at the top level   share nested
+    plan = [("list", 5 if thorough else 4, 1, 0 if thorough else 4), ("leaflist", 5 if thorough else 4, 4 if thorough else 1, 0 if thorough else 4),
+            ("keyless", 4 if thorough else 3, 1, 1), ("statell", 4 if thorough else 3, 1, 1), ("statelist", 4 if thorough else 3, 1, 1)]
+    if thorough:
+        plan += [("leaflist", 4, 1, 1), ("list", 4, 0, 1)]
+    total, complete = 0, []
+    for kind, nk, top_mod, nested_mod in plan:
         s, seqs, tree = userord_cases(cx, kind, nk)
         cases = []
-        for nested in (True, False):
-            # the nested placement only for a sample in the big runs: the algorithm does not depend on the level
+        for nested, mod in ((False, top_mod), (True, nested_mod)):
+            if not mod:
+                continue
             for ia, x in enumerate(seqs):
                 for ib, y in enumerate(seqs):
-                    if not nested or len(seqs) <= 70 or (ia * 7 + ib) % 5 == 0:
+                    if mod == 1 or (ia * 7 + ib) % mod == 0:
                         cases.append(Case(s, tree(x, nested), tree(y, nested), "userord-" + kind))
+        if top_mod == 1:
+            complete.append("%s<=%d" % (kind, nk))
         total += len(cases)
         for lo in range(0, len(cases), 6000):
-            process(cx, [s], cases[lo:lo + 6000], tag="x%s%d" % (kind, lo), laws=True, apply3=False)
+            # the complete 5-key runs: every pair through diff and apply of implementation and model, every third one through
+            # the (three times more expensive) print/parse routes of the law op as well
+            process(cx, [s], cases[lo:lo + 6000], tag="x%s%d.%d" % (kind, nk, lo), laws=True, apply3=False,
+                    law_mod=3 if nk >= 5 else 1)
+    # moves combined with changes INSIDE the moved instances and changes of the siblings around the list (the diff nodes of such
+    # instances exist before their move is recorded and are relocated by lyd_diff_add; a changed later sibling is then the
+    # last diff sibling): all ordered pairs over <= 3 keys x inner-change masks x changed neighbours
+    for kind in ("list", "statelist"):
+        nk = 4 if thorough else 3
+        s, seqs, tree = userord_cases(cx, kind, nk)
+        cases = []
+        masks = list(range(1 << (nk + 1))) if thorough else [(1 << (nk + 1)) - 1, 0b0101, 0b0110]
+        for ia, x in enumerate(seqs):
+            for ib, y in enumerate(seqs):
+                for vm in masks:
+                    for iz, az in enumerate(((b"x", b"y"), (b"x", b"y2"), (b"x2", b"y2"))):
+                        if thorough and (ia * 31 + ib * 7 + vm * 3 + iz) % 7:
+                            continue
+                        cases.append(Case(s, tree(x, True), tree(y, True, vm, az), "userord-inner-" + kind))
+        total += len(cases)
+        for lo in range(0, len(cases), 6000):
+            process(cx, [s], cases[lo:lo + 6000], tag="i%s%d.%d" % (kind, nk, lo), laws=True, apply3=False, law_mod=1)
     cx.exhaustive = True
-    cx.notes.append("exhaustive: %d ordered pairs of duplicate-free user-ordered sequences (%s)" % (total, ", ".join("%s<=%d" % p for p in plan)))
+    cx.notes.append("exhaustive: %d ordered pairs of duplicate-free user-ordered sequences; complete at the top level for %s"
+                    % (total, ", ".join(complete)))
 
 
 def replay(cx, payload):
@@ -452,7 +539,7 @@ def replay(cx, payload):
     o = f.get("opts") or 0
     head = [schema_line("S0", s)]
     d = tg.hx(s.dsl())
-    rep = cx.run_impl(HARNESS, head + ["l0 %s law %s %s %s %d" % (COMP, d, c.a, c.b, o), "d0 %s diff %s %s %s %d" % (COMP, d, c.a, c.b, o)], component=COMP, env=ENV)
+    rep = cx.run_impl(HARNESS, head + ["l0 %s law %s %s %s %d" % (COMP, d, c.a, c.b, o), "d0 %s diff %s %s %s %d fx=-" % (COMP, d, c.a, c.b, o)], component=COMP, env=ENV)
     c.feat[o] = f.get("features", [])
     eval_law(cx, c, o, rep.get("l0", ["err", "NoReply"]))
 
